@@ -473,8 +473,12 @@ def run(ctx, host=None):
                 if isinstance(e, ast.Attribute) and norm(e.value) == 'self':
                     return True
                 if isinstance(e, ast.Name):
-                    return any(isinstance(a, ast.Assign) and isinstance(a.targets[0], ast.Name) and a.targets[0].id == e.id and isinstance(a.value, ast.Attribute) and norm(a.value.value) == 'self'
-                               for a in walk_local(fnd.node))
+                    for a in walk_local(fnd.node):
+                        if isinstance(a, ast.Assign) and any(isinstance(t, ast.Name) and t.id == e.id for tt in a.targets for t in ast.walk(tt)):
+                            called = {id(c.func) for c in ast.walk(a.value) if isinstance(c, ast.Call)}
+                            if any(isinstance(x, ast.Attribute) and isinstance(x.value, ast.Name) and x.value.id == 'self' and id(x) not in called and not x.attr.isupper() and not x.attr.startswith('_MAX')
+                                   and x.attr not in ('hash_type', 'loose_prefix_len', 'pack_size_target', 'compression_algorithm') for x in ast.walk(a.value)):
+                                return True
                 return False
             attr_tests = [n for n in walk_local(fnd.node) if isinstance(n, ast.Compare) and len(n.ops) == 1 and isinstance(n.ops[0], (ast.In, ast.NotIn))
                           and _handle_attr(n.comparators[0]) and _enclosing_loop(n) is not None]
